@@ -148,7 +148,7 @@ func rootsOf(c rv) []types.Hash256 {
 	}
 	roots := make([]types.Hash256, n)
 	for i := range roots {
-		roots[i] = types.Hash256{0xab, byte(i)}
+		roots[i] = sectorRoot(i)
 	}
 	return roots
 }
